@@ -132,6 +132,18 @@ func TestVerifReplay(t *testing.T) {
 	if _, _, ok := ReadUnaryResult(c01Stream(nb.Schema(), nb)); ok {
 		t.Errorf("a non-binary result column was read as a result")
 	}
+	// an error response that is followed by a result-shaped batch is still an error response
+	var eb bytes.Buffer
+	w3 := ipc.NewWriter(&eb, ipc.WithSchema(env))
+	writeErrorBatch(w3, env, errors.New("upstream failed"), "srv", "rid", false)
+	bb0 := array.NewBinaryBuilder(memory.NewGoAllocator(), arrow.BinaryTypes.Binary)
+	bb0.Append([]byte("stale"))
+	arr0 := bb0.NewArray()
+	w3.Write(array.NewRecordBatch(env, []arrow.Array{arr0}, 1))
+	w3.Close()
+	if _, got, ok := ReadUnaryResult(eb.Bytes()); ok {
+		t.Errorf("an error response followed by a result batch was read as the result %q", got)
+	}
 	// logs, then a result: still a result
 	var lr bytes.Buffer
 	w2 := ipc.NewWriter(&lr, ipc.WithSchema(env))
